@@ -6,6 +6,7 @@ import (
 	"fmt"
 	"regexp"
 	"runtime"
+	"sort"
 	"strings"
 	"sync/atomic"
 	"testing"
@@ -164,4 +165,39 @@ func runBubble(t *testing.T, body func()) (res runResult) {
 		}
 		tick.Reset(3 * time.Second)
 	}
+}
+
+// mutexWaiters: goroutines of the current bubble that wait for a mutex of pkg/http2 (built on the channel-based mutex
+// shim, such a wait is a durable block, so it no longer stops the bubble - it has to be looked for). Called after an
+// execution has been shut down (requests cancelled, connection closed, a minute of fake time passed): whoever still
+// waits for a lock then waits for a lock nobody will release.
+func mutexWaiters() string {
+	var out []string
+	for _, g := range bubble.Census() {
+		at := -1
+		for i, f := range g.Funcs {
+			if strings.HasSuffix(f, "pkg/vsync.(*Mutex).Lock") {
+				at = i
+			}
+		}
+		if at < 0 {
+			continue
+		}
+		var fs []string
+		for _, f := range g.Funcs[at+1:] {
+			if strings.Contains(f, "pkg/vsync.") {
+				continue
+			}
+			if i := strings.LastIndex(f, "/"); i >= 0 {
+				f = f[i+1:]
+			}
+			fs = append(fs, f)
+			if len(fs) == 3 {
+				break
+			}
+		}
+		out = append(out, "Mutex.Lock in "+strings.Join(fs, " <- "))
+	}
+	sort.Strings(out)
+	return strings.Join(out, "; ")
 }
